@@ -351,6 +351,15 @@ pub fn eval_history(base: &Base, hist: &[Op], cfg: EvalCfg, enabled: &dyn Fn(&Mo
             if p.msg.starts_with("harness:") {
                 panic!("{}", p.msg);
             }
+            if let Some(what) = p.msg.strip_prefix("library: ") {
+                // the library answered a query about an entity the reference model holds in a way that
+                // contradicts the model (refused a conversion, cannot find a live import / export / function)
+                let short: String = what.chars().map(|c| if c.is_ascii_digit() { '#' } else { c }).take(70).collect();
+                ev.clauses.push(Clause { kind: ClauseKind::Generic, sig: format!("op-refused {} {}", op.kind_name(), short), detail: format!("{:?}: {}", op, what) });
+                ev.op_panicked = true;
+                ev.key = hash_of(&(format!("{:?}", hist), 1u8));
+                return ev;
+            }
             ev.clauses.push(Clause { kind: ClauseKind::Generic, sig: format!("panic-op {} {}", op.kind_name(), p.site()), detail: format!("{:?}: {} at {}:{}", op, p.msg, p.file, p.line) });
             ev.op_panicked = true;
             ev.key = hash_of(&(format!("{:?}", hist), 1u8));
